@@ -67,7 +67,7 @@ pub fn gen_rules(rng : &mut Rng, pr : &Profile) -> (Vec<XRule>, Vec<String>)
         let s : Vec<&str> = src.iter().map(|s| s.as_str()).collect();
         let mut r = XRule::new(&t, &s, kind, &format!("c{}", k));
         if pr.fail && kind != "fail" && rng.chance(1, 25) { r.omit = 1 + rng.below(nt); }
-        if pr.fail && rng.chance(1, 30) { r.pf = true; }
+        if pr.fail && rng.chance(1, 20) { r.pf = true; r.pk = rng.chance(1, 2); }
         if pr.env && kind != "fail" && rng.chance(1, 3)
         {
             for i in 1..=nt { if rng.chance(1, 2) { r.mask.push(i); } }
@@ -141,7 +141,7 @@ fn user_action(rng : &mut Rng, pr : &Profile, scn : &mut Scn, rules : &mut Vec<X
                     if rules[k].src.contains(&l) { if rules[k].src.len() < 2 { return false; } rules[k].src.retain(|s| *s != l); }
                     else { rules[k].src.push(l); rules[k].src.sort(); }
                 },
-                _ => { if !pr.fail { return false; } rules[k].pf = !rules[k].pf; },
+                _ => { if !pr.fail { return false; } rules[k].pf = !rules[k].pf; rules[k].pk = rules[k].pf && rng.chance(1, 2); },
             }
             scn.set_rules(rules);
             true
